@@ -1918,4 +1918,4 @@ package go_clipper2
 //@ func isValidAelOrder
 //@   props C01
 //@   pure
-//@   nosafety
+//@   trusted
